@@ -19,10 +19,23 @@ import (
 
 // bareNode builds a library instance with n dummy validators at ledger height `cur`.
 func bareNode(n int, cur uint32, my int) *dbft.DBFT[H] {
-	vals := make([]dbft.PublicKey, n)
-	for i := range vals {
-		vals[i] = pubKey{i}
+	d, _, _ := bareNodeDyn(n, cur, my)
+	return d
+}
+
+// bareNodeDyn is bareNode whose validator list and ledger height can be changed between Resets
+// (setN replaces the list the GetValidators callback returns, setH the value of CurrentHeight).
+func bareNodeDyn(n int, cur uint32, my int) (d *dbft.DBFT[H], setN func(int), setH func(uint32)) {
+	mkVals := func(n int) []dbft.PublicKey {
+		v := make([]dbft.PublicKey, n)
+		for i := range v {
+			v[i] = pubKey{i}
+		}
+		return v
 	}
+	vals := mkVals(n)
+	setN = func(k int) { vals = mkVals(k) }
+	setH = func(h uint32) { cur = h }
 	w := &World{sc: (&Scenario{N: n}).finish(), now: time.Unix(1_700_000_000, 0)}
 	node := &Node{id: my, w: w, known: map[H]bool{}}
 	node.t = &VTimer{n: node}
@@ -53,7 +66,7 @@ func bareNode(n int, cur uint32, my int) *dbft.DBFT[H] {
 	if err != nil {
 		panic(err)
 	}
-	return d
+	return d, setN, setH
 }
 
 type c06fail struct {
@@ -181,6 +194,73 @@ func c06Check(tier string) int {
 	}
 	close(work)
 	wg.Wait()
+	// long-lived instances: the validator count changes between heights (Reset), in both directions, for every ordered
+	// pair (N1, N2) up to maxT; after every re-initialisation the arithmetic must follow the new list
+	maxT := 96
+	if tier != "quick" {
+		maxT = 400
+	}
+	expF := func(n int) int {
+		f := 0
+		for 3*(f+1)+1 <= n {
+			f++
+		}
+		return f
+	}
+	var transitions atomic.Int64
+	tw := make(chan int, 64)
+	var twg sync.WaitGroup
+	for g := 0; g < runtime.NumCPU(); g++ {
+		twg.Add(1)
+		go func() {
+			defer twg.Done()
+			for n1 := range tw {
+				d, setN, setH := bareNodeDyn(n1, 10, -1)
+				d.Start(0)
+				h := uint32(10)
+				chk := func(n int, how string) {
+					transitions.Add(1)
+					c := &d.Context
+					f := expF(n)
+					if c.N() != n || c.F() != f || c.M() != n-f {
+						fail("C06/quorum-arithmetic/after-validator-count-change", fmt.Sprintf("%s: library N/F/M = %d/%d/%d, expected %d/%d/%d", how, c.N(), c.F(), c.M(), n, f, n-f))
+					}
+					for v := 0; v < 4; v++ {
+						exp := uint(((int64(c.BlockIndex)-int64(v))%int64(n) + int64(n)) % int64(n))
+						if p := c.GetPrimaryIndex(byte(v)); p != exp {
+							fail("C06/primary-index/after-validator-count-change", fmt.Sprintf("%s: height %d view %d: GetPrimaryIndex=%d, expected %d", how, c.BlockIndex, v, p, exp))
+						}
+					}
+					if c.PrimaryIndex != c.GetPrimaryIndex(c.ViewNumber) {
+						fail("C06/primary-index/after-validator-count-change", fmt.Sprintf("%s: stored PrimaryIndex %d, GetPrimaryIndex %d", how, c.PrimaryIndex, c.GetPrimaryIndex(c.ViewNumber)))
+					}
+				}
+				chk(n1, fmt.Sprintf("Start with N=%d", n1))
+				for n2 := 1; n2 <= maxT; n2++ {
+					if n2 == n1 {
+						continue
+					}
+					h++
+					setN(n2)
+					setH(h)
+					d.Reset(0)
+					chk(n2, fmt.Sprintf("Reset %d -> %d validators", n1, n2))
+					h++
+					setN(n1)
+					setH(h)
+					d.Reset(0)
+					chk(n1, fmt.Sprintf("Reset %d -> %d validators", n2, n1))
+				}
+			}
+		}()
+	}
+	for n1 := 1; n1 <= maxT; n1++ {
+		tw <- n1
+	}
+	close(tw)
+	twg.Wait()
+	evals.Add(transitions.Load())
+	nontriv.Add(transitions.Load())
 	for _, n := range []int{1, 4, 7, 65535} {
 		d := bareNode(n, 1<<32-1, -1) // CurrentHeight()+1 wraps to 0
 		if n <= 1024 {
@@ -192,7 +272,7 @@ func c06Check(tier string) int {
 			"primary_v0": d.GetPrimaryIndex(0), "primary_v1": d.GetPrimaryIndex(1), "primary_v255": d.GetPrimaryIndex(255)})
 	}
 	return finishEnum("C06", tier, start, evals.Load(), nontriv.Load(), fails, samples,
-		fmt.Sprintf("every N in the tier's list (%d values; thorough = all 1..65535) x %d heights incl. 32-bit boundaries and CurrentHeight()+1 wrap x all 256 views, on real Context objects (via Start for N<=%d: %d contexts, exported fields above); non-trivial = N>1; oracle = independent big-integer arithmetic", len(Ns), len(heights), startN, viaStart.Load()),
+		fmt.Sprintf("every N in the tier's list (%d values; thorough = all 1..65535) x %d heights incl. 32-bit boundaries and CurrentHeight()+1 wrap x all 256 views, on real Context objects (via Start for N<=%d: %d contexts, exported fields above); plus %d re-initialisations of long-lived instances whose validator count changes N1 -> N2 -> N1 for every ordered pair up to %d; non-trivial = N>1; oracle = independent big-integer arithmetic", len(Ns), len(heights), startN, viaStart.Load(), transitions.Load(), maxT),
 		true, []string{"GetPrimaryIndex/N/F/M read only Validators and BlockIndex (verified by reading context.go); for N above the Start threshold the Context is populated through those exported fields", "height windows (N consecutive heights) are enumerated for N<=4096 only"})
 }
 
